@@ -20,6 +20,7 @@ RULE = ("One evaluation = one seeded execution of two real clients + real "
         "non-trivial runs.")
 RULE += (" Three of eight configurations add a planned uplink loss (server stops reading one client's connection, then the connection dies).")
 RULE += (' Two further configurations apply the planned uplink loss twice in a row to the same client (what was re-submitted on the replacement connection is lost again).')
+RULE += (' Re-entrant applications also pass on_status_update= and may send a message from inside that callback (one configuration: from every status callback).')
 RULE += (' Interactive code entry: the nameplate list asked for by input_code() / refresh_nameplates() must have been answered by the time the session completes.')
 LEVEL_TEXT = ("Seeded exploration of drop points in a composed two-client run; "
               "after the last fault connectivity is restored and the run must "
@@ -44,7 +45,12 @@ def configs(tier):
              "reorder_heavy": i in (3, 6),
              "max_msgs": 4 if tier == "quick" else 8} for i in range(8)] + \
         [{"spake": "stub", "uplink_loss": "double", "faults_few": k == 1,
-          "max_msgs": 4 if tier == "quick" else 8} for k in range(2)]
+          "max_msgs": 4 if tier == "quick" else 8} for k in range(2)] + \
+        [# applications that ask for status updates and send a message from
+         # inside every status callback they get (re-entrancy from a callback
+         # that runs in the middle of connection set-up and tear-down)
+         {"spake": "stub", "reentrant": True, "status_heavy": True,
+          "max_msgs": 4}]
 
 
 def run_one(seed, tape, opts):
